@@ -57,7 +57,7 @@ SLOW_MS = 2500
 RUN_TIMEOUT_S = 45
 
 TIERS = {
-    "quick": dict(maxn=4, maxp=2, maxg=2, maxitems=2, flav_per_dag=2, n_req=70, n_proto=130, partial_all=False,
+    "quick": dict(maxn=4, maxp=2, maxg=2, maxitems=2, flav_per_dag=2, n_req=48, n_proto=96, partial_all=False,
                   n_argv_oop=24, shapes_depth=1),
     "thorough": dict(maxn=5, maxp=3, maxg=2, maxitems=3, flav_per_dag=2, n_req=900, n_proto=1400, partial_all=True,
                      n_argv_oop=200, shapes_depth=2),
@@ -227,9 +227,11 @@ def generate(ctx, t):
                      "  MaxItems = %d\nINVARIANTS MTypeOK MHonoured MNoOrphan MFileManager MNoStuck Emit\n"
                      "CHECK_DEADLOCK FALSE\n" % t["maxitems"]}),
     }
-    with concurrent.futures.ThreadPoolExecutor(max_workers=3) as ex:
+    with concurrent.futures.ThreadPoolExecutor(max_workers=4) as ex:
         futs = {k: ex.submit(f) for k, f in jobs.items()}
+        fshapes = ex.submit(lambda: universe.enumerate_shapes(ctx, depth=t["shapes_depth"]))
         res = {k: ctx.tlc_cases(f.result()) for k, f in futs.items()}
+        shapes = fshapes.result()
     dags, params = res["dags"], res["params"]
     # protocol cases: one per distinct case record; the allowed outcomes are those of its completed behaviours
     proto = {}
@@ -256,11 +258,11 @@ def generate(ctx, t):
         if not any(pred(c) for c in proto):
             raise vlib.MachineryError("vacuous behaviour universe: no case with " + what)
     vlib.log("TLC generated %d DAGs, %d option lists, %d protocol cases" % (len(dags), len(params), len(proto)))
-    return dags, params, proto
+    return dags, params, proto, shapes
 
 
 # ------------------------------------------------------------------------------------------- programs
-def make_programs(ctx, t, dags, rng):
+def make_programs(ctx, t, dags, shapes, rng):
     """[(pid, prog, meta)] : DAG programs with flavour vectors + shape-universe programs."""
     progs = []
     for d in dags:
@@ -279,13 +281,9 @@ def make_programs(ctx, t, dags, rng):
             prog = P.dag_program(d, v, sub)
             progs.append(dict(prog=prog, dag=d, flav=v, subdirs=sub, kind="dag",
                               comments=[f["path"] for f, fl in zip(prog["files"], v) if fl == "full"]))
-    shapes = universe.enumerate_shapes(ctx, depth=t["shapes_depth"])
     base = universe.base_program(shapes)
     for name, pr in (("base", base), ("typedef", universe.present_typedef(base, 2)),
                      ("include", universe.present_include(base))):
-        # negative field ids are not what this property is about and need a checker option; drop that struct
-        for f in pr["files"]:
-            f["defs"] = [x for x in f["defs"] if x["name"] != "Sparse"]
         progs.append(dict(prog=pr, dag=None, flav=[name], subdirs=False, kind="shapes", comments=[]))
     feat = set()
     for p in progs:
@@ -321,7 +319,7 @@ def run_c11req(ctx, c11req, cases, tag, nproc=None):
             return []
         inf, outf = ctx.path("req", "%s-%d.in" % (tag, k)), ctx.path("req", "%s-%d.out" % (tag, k))
         vlib.write_ndjson(inf, chunks[k])
-        ctx.run([c11req, inf, outf], timeout=1500)
+        ctx.run([c11req, inf, outf], timeout=1500, env={"GOMAXPROCS": "2", "GOGC": "400"})
         r = vlib.read_ndjson(outf)
         os.remove(inf)
         os.remove(outf)
@@ -785,7 +783,7 @@ def proto_variants(cs, rng, t):
         g = garbage_variants(rng)
         return [{"garbage_hex": pick(rng, g).hex()}]
     if cs["beh"] == "Partial":
-        return [{"cut": pick(rng, [1, 2, 3])}, {"cut": -1}, {"cut_permil": pick(rng, [300, 500, 700])}][:1 + rng.randrange(3)][-1:]
+        return [pick(rng, [{"cut": pick(rng, [1, 2, 3])}, {"cut": -1}, {"cut_permil": pick(rng, [300, 500, 700])}])]
     return [{}]
 
 
@@ -822,9 +820,8 @@ def proto_trace(c, obs, version, ref):
     cs = c["cs"]
     tr = [{"ev": "Case", "cs": cs}]
     dumped = bool(obs["dumps"] and obs["dumps"][0])
-    if obs["started"] or dumped:
-        same = dumped and not check_request(c, obs, version, ref)
-        tr.append({"ev": "Spawn", "same": bool(same), "dumped": dumped})
+    same = dumped and not check_request(c, obs, version, ref)
+    tr.append({"ev": "Spawn", "same": bool(same), "dumped": dumped, "started": bool(obs["started"])})
     tr.append({"ev": "Gone", "alive": bool(obs["alive"])})
     proper = cs["beh"] == "Ok" and cs["rerr"] == "" and not c["beyond"]
     if proper:
@@ -848,7 +845,7 @@ def proto_trace(c, obs, version, ref):
         pos = i + 1
     tr.append({"ev": "Exit", "rc": "zero" if obs["rc"] == 0 else ("timeout" if obs["rc"] == "timeout" else "nonzero"),
                "intime": obs["rc"] != "timeout" and obs["elapsed"] <= limit_s + SLACK_S, "warned": warned,
-               "elapsed": obs["elapsed"]})
+               "elapsed_ms": int(obs["elapsed"] * 1000)})
     for e in tr:
         e.pop("k", None)
     return tr
@@ -862,7 +859,7 @@ def classify_proto(c, tr, at):
     if ev["ev"] == "Spawn":
         return "request-differs" if ev.get("dumped") else "plugin-not-run"
     if ev["ev"] == "Gone":
-        return "plugin-alive-after-thriftgo"
+        return "plugin-alive-after-thriftgo" if ev["alive"] else "plugin-not-run"
     if ev["ev"] == "End":
         return "good-response-rejected" if ev["err"] else "output-not-as-specified"
     if ev["ev"] == "Exit":
@@ -914,24 +911,23 @@ def stage_proto(ctx, bins, c11req, proto, t, version, only=None):
                    tuple(i["k"] for i in cs["items"]), c["rc"], c["ferr"], c["renamed"], c["patched"],
                    cs.get("code"), cs.get("wrote"))
             strata.setdefault(key, []).append(c)
+        def round_robin(keys, n):
+            got, rounds = [], 0
+            while len(got) < n and rounds < 60:
+                for k in keys:
+                    if rounds < len(strata[k]) and len(got) < n:
+                        if rounds == 0:
+                            rng.shuffle(strata[k])
+                        got.append(strata[k][rounds])
+                rounds += 1
+            return got
         keys = sorted(strata, key=str)
         rng.shuffle(keys)
-        # hangs and timeouts first: they take the longest
-        keys.sort(key=lambda k: 0 if (k[0] == "Hang" or (k[1] == "slow")) else 1)
-        chosen = []
-        rounds = 0
-        while len(chosen) < t["n_proto"] and rounds < 50:
-            for k in keys:
-                if rounds < len(strata[k]) and len(chosen) < t["n_proto"]:
-                    if rounds == 0:
-                        rng.shuffle(strata[k])
-                    chosen.append(strata[k][rounds])
-            rounds += 1
-        slow = [c for c in chosen if c["cs"]["dur"] == "slow"]
-        maxslow = max(24, t["n_proto"] // 6)
-        if len(slow) > maxslow:      # bound the wall time: slow cases cost 2.5 s each
-            drop = set(id(c) for c in slow[maxslow:])
-            chosen = [c for c in chosen if id(c) not in drop]
+        # cases that wait for a time-out or a slow plugin cost seconds each: bounded share, run first
+        slowk = [k for k in keys if k[0] == "Hang" or k[1] == "slow"]
+        fastk = [k for k in keys if not (k[0] == "Hang" or k[1] == "slow")]
+        nslow = min(max(24, t["n_proto"] // 5), t["n_proto"] // 2)
+        chosen = round_robin(slowk, nslow) + round_robin(fastk, t["n_proto"] - nslow)
         cases = []
         for c in chosen:
             for v in proto_variants(c["cs"], rng, t):
@@ -1132,8 +1128,8 @@ def run(ctx, args):
             raise vlib.MachineryError("unknown replay stage %r" % st)
         return ctx.finish("replay of one case")
     rng = random.Random(ctx.seed)
-    dags, params, proto = generate(ctx, t)
-    progs = make_programs(ctx, t, dags, rng)
+    dags, params, proto, shapes = generate(ctx, t)
+    progs = make_programs(ctx, t, dags, shapes, rng)
     parallel(lambda p: materialise(ctx, p), progs, 8)
     vlib.log("%d programs" % len(progs))
     refs = stage_codec(ctx, c11req, progs)
